@@ -85,7 +85,7 @@ func (m *MongoMutex) spinLock(ctx context.Context, opt *mod.LockOption) error {
 		exp := time.Now().Add(opt.TTL)
 		ret, err := m.mongoDb.Collection(m.clsName).UpdateOne(ctx, bson.M{"_id": m.key, "expiredAt": detail.ExpiredAt}, bson.M{
 			"$set": bson.M{
-				"expiredAt": time.Now().Add(opt.TTL),
+				"expiredAt": exp,
 				"identity":  opt.ReentrantIdentity,
 			},
 		})
